@@ -30,6 +30,9 @@ def scenarios(tier):
     out.append(('%s (f) the only member leaves (and re-joins) with calls in flight' % stack,
                 {'stack': stack, 'endpoints': 1, 'ops': [('call', 'f0'), ('call', 'f1', 0.2525)], 'faults': ['drop', 'reset'],
                  'scripted_serverset': True, 'membership': [('leave', 0), ('join', 0)], 'timeout': 0.5025}))
+  out.append(('mux (g) 1 endpoint, 3 calls, a tag above 65535 next to tag 2',
+              {'stack': 'mux', 'endpoints': 1, 'ops': [('call', 'g0', 0.2525), ('call', 'g1'), ('call', 'g2')],
+               'faults': ['drop'], 'timeout': 0.5025, 'tag_jump': [2, 65538]}))
   out.append(('thrift (c) 1 endpoint, pool max 1 / queue 1, 3 calls',
               {'stack': 'thrift', 'endpoints': 1, 'ops': [('call', 'c0'), ('call', 'c1', 0.2525), ('call', 'c2')],
                'pool': {'max_watermark': 1, 'max_queue_len': 1}, 'faults': FAULTS, 'timeout': 0.5025}))
